@@ -51,6 +51,12 @@ CLAIMS.update({
     "C12": ("e2-client", "model_checking",
             "virtual time makes 'exactly at the deadline' observable: Timeout is enabled iff now >= deadline and every input/quiescence event requires that no task step is enabled, so an early, late or extended timeout, a missed drop after N consecutive timeouts or a counter that is not restarted is a rejection; whole and split replies at deadline-1/0/+1, foreign frames that must not move the deadline, outcome sequences x limits, partial frame across reconnect",
             "§7 C12", TRUST + "time advances only by scripted ticks"),
+    "C13": ("e3-lifecycle", "model_checking",
+            "the life-cycle part of Client.tla (Start, BeginConnect, Attempt, FailNext, Connected, ConnFailed, WaitExpired, Post, Stopping) judges recorded runs of the production TcpChannelTask under virtual time: every command and fault at every life-cycle location plus random scripts; listener events, connection attempts and completions must be outputs of specification steps in that order; FailFast is an invariant; inputs require quiescence, so a request left queued while down or an attempt while disabled is a rejection",
+            "§7 C13", TRUST + "connections come from the verif-hooks connector (same select! against the command queue as the production connect())"),
+    "C14": ("e3-lifecycle", "model_checking",
+            "retry arithmetic of Client.tla (retryCur doubling capped at max, reset on Connected, min after disconnect, wake = now + announced delay) validated on recorded runs over a (min,max) grid and failure/success/disconnect patterns with waits of delay-1 then 1 ms under virtual time: the announced delay and the instant of the next attempt must be exactly the specification's",
+            "§7 C14", TRUST + "virtual milliseconds"),
 })
 
 ENGINES = [
@@ -58,6 +64,8 @@ ENGINES = [
      "kind_free_text": "production server session (SessionTask::run) over a scripted in-memory stream under virtual time; ndjson trace validated by TLC against ServerRef.tla"},
     {"name": "e2-client", "path": "harness/src/bin/e2_client.rs + spec/Client.tla + spec/ClientTrace.tla",
      "kind_free_text": "production client request loop (ClientLoop::run via verif::ClientSession) under virtual time; ndjson trace validated by TLC against the Client.tla state machine"},
+    {"name": "e3-lifecycle", "path": "harness/src/bin/e2_client.rs (mode task) + spec/Client.tla + spec/ClientTrace.tla",
+     "kind_free_text": "production TcpChannelTask (enable / connect / retry / listener / request loop) with a harness connector under virtual time; validated by TLC against the life-cycle part of Client.tla"},
 ]
 
 
